@@ -83,6 +83,121 @@ theorem sorted_perm_unique {β : Type} (lt : β → β → Bool) (htot : ∀ a b
       have : t₁.Perm t₂ := List.Perm.cons_inv hp
       rw [ih t₂ h₁'.2 h₂'.2 this]
 
+
+/-! ## never "cancelled" when the flag is never raised -/
+
+section
+
+variable {α : Type} [Inhabited α] {a0 : Array α} (lt : α → α → Bool)
+
+/-- "this computation does not report cancellation" -/
+def NC (m : M a0 (Bool × Nat)) : Prop := ∀ s, (m s).1.1 = false
+
+theorem NC_pure_false (n : Nat) : NC (a0 := a0) (pure (false, n)) := fun _ => rfl
+
+theorem NC_bind_any {β : Type} (m : M a0 β) (f : β → M a0 (Bool × Nat)) (h : ∀ x, NC (f x)) : NC (m >>= f) := by
+  intro s
+  show ((f (m s).1) (m s).2).1.1 = false
+  exact h _ _
+
+theorem NC_bind_rec (m : M a0 (Bool × Nat)) (f : Bool × Nat → M a0 (Bool × Nat)) (hm : NC m)
+    (h : ∀ x, x.1 = false → NC (f x)) : NC (m >>= f) := by
+  intro s
+  show ((f (m s).1) (m s).2).1.1 = false
+  exact h _ (hm s) _
+
+theorem NC_ite (c : Prop) [Decidable c] (a b : M a0 (Bool × Nat)) (ha : NC a) (hb : NC b) : NC (if c then a else b) := by
+  split <;> assumption
+
+theorem recurseSplit_NC
+    (rec : (lo hi : Nat) → Option α → (limit : Nat) → (wasBalanced wasPartitioned : Bool) → (nread : Nat) → M a0 (Bool × Nat))
+    (hrec : ∀ lo hi pred limit wb wp nread, NC (rec lo hi pred limit wb wp nread))
+    (lo hi : Nat) (pred : Option α) (limit : Nat) (wb wp : Bool) (nread pivot : Nat) :
+    NC (recurseSplit lt (fun _ => false) rec lo hi pred limit wb wp nread pivot) := by
+  have tail : ∀ (doEqual : Bool), NC (a0 := a0) (if doEqual = true then do
+        let mid ← partitionEqual lt lo hi pivot
+        rec (lo + mid) hi pred limit wb wp nread
+      else do
+        let __x ← partition lt lo hi pivot
+        let pv ← rd (lo + __x.fst)
+        if max __x.fst (hi - lo - __x.fst - 1) ≤ Gen.PS_MAX_SEQUENTIAL then
+          if __x.fst < hi - lo - __x.fst - 1 then do
+            let __x_1 ← rec lo (lo + __x.fst) pred limit true true nread
+            rec (lo + __x.fst + 1) hi (some pv) limit (decide (min __x.fst (hi - lo - __x.fst) ≥ (hi - lo) / 8)) __x.snd __x_1.snd
+          else do
+            let __x_1 ← rec (lo + __x.fst + 1) hi (some pv) limit true true nread
+            rec lo (lo + __x.fst) pred limit (decide (min __x.fst (hi - lo - __x.fst) ≥ (hi - lo) / 8)) __x.snd __x_1.snd
+        else do
+          let __x_1 ← rec lo (lo + __x.fst) pred limit true true (nread + 1)
+          let __x_2 ← rec (lo + __x.fst + 1) hi (some pv) limit true true __x_1.snd
+          pure (__x_1.fst || __x_2.fst, __x_2.snd)) := by
+    intro doEqual
+    apply NC_ite
+    · apply NC_bind_any; intro mid; exact hrec _ _ _ _ _ _ _
+    · apply NC_bind_any; intro x
+      apply NC_bind_any; intro pv
+      apply NC_ite
+      · apply NC_ite
+        · apply NC_bind_rec _ _ (hrec _ _ _ _ _ _ _); intro x1 _; exact hrec _ _ _ _ _ _ _
+        · apply NC_bind_rec _ _ (hrec _ _ _ _ _ _ _); intro x1 _; exact hrec _ _ _ _ _ _ _
+      · apply NC_bind_rec _ _ (hrec _ _ _ _ _ _ _); intro x1 h1
+        apply NC_bind_rec _ _ (hrec _ _ _ _ _ _ _); intro x2 h2
+        intro s
+        show (x1.1 || x2.1) = false
+        rw [h1, h2]; rfl
+  unfold recurseSplit
+  simp only [Bool.false_eq_true, if_false]
+  cases pred with
+  | none => apply NC_bind_any; intro doEqual; exact tail doEqual
+  | some p =>
+    apply NC_bind_any; intro v
+    apply NC_bind_any; intro doEqual
+    exact tail doEqual
+
+theorem recursePivot_NC
+    (rec : (lo hi : Nat) → Option α → (limit : Nat) → (wasBalanced wasPartitioned : Bool) → (nread : Nat) → M a0 (Bool × Nat))
+    (hrec : ∀ lo hi pred limit wb wp nread, NC (rec lo hi pred limit wb wp nread))
+    (lo hi : Nat) (pred : Option α) (limit : Nat) (wb wp : Bool) (nread : Nat) :
+    NC (recursePivot lt (fun _ => false) rec lo hi pred limit wb wp nread) := by
+  unfold recursePivot
+  apply NC_bind_any
+  intro x
+  simp only
+  apply NC_ite
+  · apply NC_bind_any
+    intro b
+    apply NC_ite
+    · exact NC_pure_false _
+    · exact recurseSplit_NC lt rec hrec _ _ _ _ _ _ _ _
+  · exact recurseSplit_NC lt rec hrec _ _ _ _ _ _ _ _
+
+theorem recurse_NC : ∀ (fuel lo hi : Nat) (pred : Option α) (limit : Nat) (wb wp : Bool) (nread : Nat),
+    NC (a0 := a0) (recurseLoop lt (fun _ => false) fuel lo hi pred limit wb wp nread) := by
+  intro fuel
+  induction fuel with
+  | zero => intro lo hi pred limit wb wp nread; unfold recurseLoop; exact NC_pure_false _
+  | succ k ih =>
+    intro lo hi pred limit wb wp nread
+    unfold recurseLoop
+    apply NC_ite
+    · apply NC_bind_any; intro _; exact NC_pure_false _
+    · apply NC_ite
+      · apply NC_bind_any; intro _; exact NC_pure_false _
+      · apply NC_ite
+        · apply NC_bind_any; intro _
+          exact recursePivot_NC lt _ ih _ _ _ _ _ _ _
+        · exact recursePivot_NC lt _ ih _ _ _ _ _ _ _
+
+/-- **a sort whose cancel flag is never raised never reports "cancelled"** — every comparison function, every input -/
+theorem C18_not_cancelled (lt : α → α → Bool) (a : Array α) : (parQuicksort lt (fun _ => false) a).2 = false := by
+  unfold parQuicksort parQuicksortM
+  simp only [Bool.false_eq_true, if_false]
+  have := recurse_NC (a0 := a) lt (a.size + 2) 0 a.size none (bitLen a.size) true true 1 ⟨a, Array.Perm.refl a⟩
+  exact this
+
+
+end
+
 end NucleoVerif.PS
 
 namespace NucleoVerif.Nu
